@@ -30,6 +30,10 @@ missing = object()
 
 re_trim = re.compile(r'($\s+|\s+^)', re.MULTILINE)
 
+# An interpolation expression (what is left of ``${`` once the ``$$``
+# escapes are taken out; ``${}`` is literal text)
+re_interpolation = re.compile(r'\$\{.+\}', re.DOTALL)
+
 # Not a ``Static`` (module-level) value: a template may write to the
 # dictionary bound to ``attrs``, so each use gets a new one.
 EMPTY_DICT = ast.Dict(keys=[], values=[])
@@ -917,7 +921,12 @@ class MacroProgram(ElementProgram):
                 name is not None and
                 name.lower() in boolean_attributes
             )
-            if expr is None and text is not None and '${' in text:
+            # (text that holds ``${`` only escaped, empty or unclosed is
+            # static: it is what it renders to, also when the attribute
+            # is boolean)
+            dynamic = text is not None and re_interpolation.search(
+                text.replace('$$', '')) is not None
+            if expr is None and dynamic:
                 default = None
                 expr = nodes.Substitution(
                     text,
@@ -938,7 +947,7 @@ class MacroProgram(ElementProgram):
                 # The default value is what the static attribute renders
                 # to on its own, i.e. with the ``$$`` escape applied.
                 default = ast.Constant(
-                    text.replace('$$', '$') if '${' not in text else text
+                    text.replace('$$', '$') if not dynamic else text
                 ) if text is not None else None
 
                 # If the expression is non-trivial, the attribute is
